@@ -13,19 +13,19 @@ CHECKS = {
          "All classes discovered at run time are compared with the vendored dictionary, docs/list-of-avps.md and definitions.py; instances and load() dispatch are checked; every class is fed in-domain and out-of-domain values and the outcome judged by per-type domain predicates.",
          "refdict.json frozen from the reviewed pinned tree (codes/vendors/types checked by hand against the standards; M/P defaults frozen, not independently verified)", "3 C10"),
  "C03": ("fault_enumeration", "step-bound guard (sys.monitoring LINE events on the decoder loops) + exception-class oracle over systematic corruptions",
-         "Every truncation point, every length field at every depth set to small/adjacent/extreme values (thorough: all 2^24 values at two fields), bit flips of all header bytes, typed payload faults for all dictionary classes, trailing garbage and random strings are decoded by the real code under an iteration guard; anything but 'returns' or 'library error within the step bound' is a violation. The live-node half (part B) is decided by the scheduler-based scenario runs. Part B sends 60 classes of malformed and hostile-but-decodable input (invalid UTF-8 in every text AVP, vendor-flagged base AVPs, odd widths, bursts, nesting to depth 3000) to a live node in five connection states and judges lock ownership, thread survival, responsiveness and teardown; part A sweeps nesting depths to 40000.",
+         "Every truncation point, every length field at every depth set to small/adjacent/extreme values (thorough: all 2^24 values at two fields), bit flips of all header bytes, typed payload faults for all dictionary classes, trailing garbage and random strings are decoded by the real code under an iteration guard; anything but 'returns' or 'library error within the step bound' is a violation. The live-node half (part B) is decided by the scheduler-based scenario runs. Part B sends 60 classes of malformed and hostile-but-decodable input (invalid UTF-8 in every text AVP, vendor-flagged base AVPs, odd widths, bursts, nesting to depth 3000) to a live node in five connection states and judges lock ownership, thread survival, responsiveness and teardown; part A sweeps nesting depths to 40000. Hostile text (long legal runs closed by an illegal character, separator runs) in every text-typed dictionary AVP is decoded in a forked child under a CPU-time limit (RLIMIT_CPU, 4 s of consumed CPU per decode), which bounds the time spent inside single C calls such as a backtracking regular expression.",
          "bound is 4*len+64 loop iterations; exceptions are classified by the module that defines them", "3 C03"),
  "C04": ("exploration", "history checker (sent vs delivered) over executions of the real node under a deterministic scheduler and a substituted transport",
          "Message sequences x segmentations (every split position of a short stream, byte-at-a-time, header-internal, random, coalescing) x recv-size scripts x schedules (round robin; random walk with line-level preemption) are executed against a real Diameter node; the sequence returned by get_message() and the order in which the state machine consumes messages are compared with what the scripted peer sent. Plus park sweeps (application consumer, receive worker and transport thread each descheduled once at every source line of their path while the other threads go on) and a real-loopback stage (unmodified node, kernel TCP on 127.0.0.1, five segmentation modes) with the same oracle.",
          "vnet is a model of Linux TCP sockets; schedules are explored at synchronisation-operation and source-line granularity; bounded progress on a virtual clock", "3 C04"),
  "C05": ("exploration", "history checker (submitted vs written) + conservation over executions under the deterministic scheduler with partial-write scripts",
-         "1..4 submitter tasks x message sizes x partial-write scripts (fixed, random, zero-window) x inbound traffic x schedules; the bytes the substituted socket accepted are decoded by the reference decoder and matched against the submitted messages (exactly once, whole, per-submitter order, only whole node-originated base messages besides). Plus park sweeps (a submitter, the transport thread and the state-machine thread descheduled at every line of the functions that move the stream, with a late submitter sending meanwhile), a directed window (inbound data readable at the instant of a partial write) and a real-loopback stage (small SO_SNDBUF/SO_RCVBUF, slow reader) with the same oracle.",
+         "1..4 submitter tasks x message sizes x partial-write scripts (fixed, random, zero-window) x inbound traffic x schedules; the bytes the substituted socket accepted are decoded by the reference decoder and matched against the submitted messages (exactly once, whole, per-submitter order, only whole node-originated base messages besides). Plus park sweeps (a submitter, the transport thread and the state-machine thread descheduled at every line of the functions that move the stream, with a late submitter sending meanwhile), a directed window (inbound data readable at the instant of a partial write) and a real-loopback stage (small SO_SNDBUF/SO_RCVBUF, slow reader) with the same oracle. A third of the plain cases submit some messages again (same object or an equal copy); multiplicities are counted.",
          "as C04", "3 C05"),
  "C06": ("exploration", "online trace checker: real node vs hand-written reference transition model at quiescent points (exhaustive event sequences to a stated depth)",
          "All sequences over a 19-event alphabet to depth 2 (quick) / 3 (thorough) from each model state, both roles, 0/1/3 applications, plus random longer sequences; hard clauses H1-H9 are violations, soft cells are reported as model drift. As built the alphabet has 22 events; plus the client open path under random-walk schedules, park sweeps of the state-machine thread (every event lands while the thread stands at line k of its tick, also while it is busy with a message that just arrived) and real-loopback event sequences against the hard clauses.",
          "the reference model (bvm/scen.py) is hand-written from the property statement and RFC 6733; comparison at quiescent points under round-robin scheduling and virtual time", "3 C06"),
  "C07": ("exploration", "request/answer matcher over the emitted stream (reference decoder), incl. reconnects of the same node object",
-         "Sequences of base requests with boundary/random/repeated identifier pairs, back-to-back or segmented, interleaved with application traffic and send-queue floods, both roles, 1..3 connections per node object; every emitted CEA/DWA/DPA must pair with exactly one request and leave the socket before the next inbound message is taken. Stray base answers from the peer are part of the inbound mix (they must not be answered); plus real-loopback exchanges over two connections of the same node object.",
+         "Sequences of base requests with boundary/random/repeated identifier pairs, back-to-back or segmented, interleaved with application traffic and send-queue floods, both roles, 1..3 connections per node object; every emitted CEA/DWA/DPA must pair with exactly one request and leave the socket before the next inbound message is taken. Stray base answers from the peer are part of the inbound mix (they must not be answered); plus real-loopback exchanges over two connections of the same node object. An application task hands forged CEA/DWA/DPA objects to send_message()/send_messages() during the exchange: none may reach the socket.",
          "identifier pairs are sampled, not enumerated", "3 C07"),
  "C08": ("fault_enumeration", "end-of-life monitor (Closed, sockets released, tasks finished, blocked callers returned, restart works) over cause x life-cycle point x schedule",
          "Termination causes {local close, peer DPR, peer disconnect, peer reset, refused connection} x life-cycle points {during connect, before CE, Open idle/inbound queued/outbound queued, consumer blocked, Closing} x roles x schedules; deadlocks and spins are detected by the scheduler. Plus a line-by-line park sweep of application threads inside send_message()/get_message() across every cause, DPR with each Disconnect-Cause, and a real-loopback stage (seven causes, thread/fd release observed through threading.enumerate() and /proc/self/fd, restart of the same object).",
@@ -43,7 +43,7 @@ CHECKS = {
          "Operation sequences over a small AVP alphabet on generic, decoded and typed messages; invariants I1-I4 evaluated after each operation; DFS with abstract-state hashing over lists of bounded size, random walks beyond.",
          "names are the attributes whose key contains _avp; identity semantics", "3 C11"),
  "C12": ("exploration", "postcondition monitor on decorate_answer (request identity, n // 1000 family rule)",
-         "Typed and generic request/answer pairs x Result-Codes (0..65535 exhaustively on one pair, every defined code on every pair) x Session-Id residues x answer shapes. Plus the application layer as shipped (Bromelia.run(): worker process, Manager IPC, loopback peer) judged on the decoration of handler answers.",
+         "Typed and generic request/answer pairs x Result-Codes (0..65535 exhaustively on one pair, every defined code on every pair) x Session-Id residues x answer shapes. Plus the application layer as shipped (Bromelia.run(): worker process, Manager IPC, loopback peer) judged on the decoration of handler answers. Plus a route stage: a real Bromelia object with in-process workers dispatches requests to handlers that build their answers in five styles (typed, generic, on the request's own header, a fresh header with the request's identifiers, a reused object); the message handed to the connection worker is judged by the same oracle.",
          "multiples of 1000 and answers with both result AVPs are not judged for the E flag", "3 C12"),
  "C15": ("exploration", "uniqueness monitor with a scripted random source (os.urandom substituted); concurrent part under the deterministic scheduler",
          "Mixed creation histories with adversarial random sources; draw counting for answers and explicit-header requests; concurrent creators under controlled schedules.",
@@ -55,7 +55,7 @@ CHECKS = {
          "12-key product space with valid/invalid values per key, key orders, unknown keys, application lists; YAML spec lists with/without transport.",
          "strict dotted-quad regex and type(x) is int define validity; ambiguous values are generated but not judged", "3 C19"),
  "C17": ("exploration", "total-function sweep with arithmetic oracle (n // 1000)",
-         "All codes 0..65535 exhaustively plus 32-bit boundaries and random values through both the integer predicates and the answer-object predicates.",
+         "All codes 0..65535 exhaustively plus 32-bit boundaries and random values through both the integer predicates and the answer-object predicates. Answers of twelve shapes (flags, other AVPs, Experimental-Result before/after the Result-Code, decoded from bytes, typed answer classes).",
          "ResultCodeAVP(n) carries n (C10/C01)", "3 C17"),
  "C18": ("exploration", "total-function sweep with independent TBCD codec",
          "All digit strings up to length 5 (quick) / 7 (thorough) plus random strings to 20 digits; encode, decode, round trip and the two AVP classes.",
